@@ -34,15 +34,16 @@ fn main() {
         let w = WorldOpts {
             scenes: 1 + rng.usize(2),
             same_region: false,
-            preset: if long { "stop-and-go" } else { *rng.pick(&["random", "crossing", "stop-and-go"]) },
+            preset: if long { "stop-and-go" } else { *rng.pick(&["random", "crossing", "stop-and-go", "convoy", "crowd"]) },
             rotated: rng.chance(0.2),
             features: kind.is_visual() && rng.chance(0.9),
             feat_dim: *rng.pick(&[2usize, 8, 11]),
             duplicates: false,
-            nobj: if long { 1 + rng.usize(2) } else { 1 + rng.usize(4) },
+            nobj: if long { 1 + rng.usize(2) } else { 1 + rng.usize(5) },
             steps: if long { 100000 } else { 60 },
             low_quality: rng.chance(0.7),
             avoid_coincident: kind.is_visual() && own_area_enabled(&cfg),
+            low_conf: false,
         };
         let len = if cli.small { 8 } else if long { 200 + rng.usize(if cli.thorough() { 600 } else { 200 }) } else { 40 + rng.usize(60) };
         let h = HistOpts { len, lifecycle_ops: !long, clear_wasted: false, auto_waste_ops: false, batches: kind.is_batch(), empty_calls: false };
